@@ -153,6 +153,24 @@ def meta_sequences():
     return out
 
 
+def rebuild_then_meta_sequences():
+    """a change that rebuilds the table, directly followed by a Meta change of the same model (and the other way
+    round): what the Meta change costs must not include the neighbour's rebuild a second time"""
+    add = {'t': 'AddField', 'model': 'Alpha', 'field': 'c', 'ftype': 'IntegerField', 'initial': '1', 'attrs': []}
+    nn = {'t': 'ChangeField', 'model': 'Alpha', 'field': 'b', 'ftype': None, 'initial': '"x"', 'attrs': [['null', 'false']]}
+    dl = {'t': 'DeleteField', 'model': 'Alpha', 'field': 'b'}
+    cm = lambda prop, val: {'t': 'ChangeMeta', 'model': 'Alpha', 'prop': prop, 'py_value': val}
+    metas = [cm('index_together', [('a', 'b')]), cm('unique_together', [('a', 'b')]),
+             cm('indexes', [{'name': 'alpha_a_ix', 'fields': ['a']}])]
+    out = []
+    for r in (add, nn):
+        for m in metas:
+            out.append([r, m])
+            out.append([m, r])
+    out.append([dl, cm('indexes', [{'name': 'alpha_a_ix', 'fields': ['a']}])])
+    return out
+
+
 def reuse_sequences():
     """a field name freed by a rename and used again by a new field, with changes of both fields around it"""
     cf = lambda field, *attrs: {'t': 'ChangeField', 'model': 'Alpha', 'field': field, 'ftype': None, 'initial': None,
@@ -201,7 +219,7 @@ def run(ctx):
     ir3 = list(optrig.valid_sequences(sig, ira, 3))
     ctx.rng.shuffle(ir3)
     ir += ir3[:50 if quick else 2000]
-    work = [(spec, q) for q in meta_sequences() + reuse_sequences()] + [(spec2, q) for q in rel] + [(spec, q) for q in ir] + \
+    work = [(spec, q) for q in meta_sequences() + reuse_sequences() + rebuild_then_meta_sequences()] + [(spec2, q) for q in rel] + [(spec, q) for q in ir] + \
         [(spec, q) for q in seqs]
     merge_witness = None
     reqs = []
